@@ -14,6 +14,7 @@ import (
 	"time"
 
 	"github.com/cloudwego/dynamicgo/conv"
+	"github.com/cloudwego/dynamicgo/meta"
 	"github.com/cloudwego/dynamicgo/conv/j2t"
 	"github.com/cloudwego/dynamicgo/conv/t2j"
 	dhttp "github.com/cloudwego/dynamicgo/http"
@@ -348,7 +349,7 @@ func runC17(c *h.Ctx) {
 		}
 		idl := sc.IDL()
 		cs.Info("idl", idl)
-		desc, _, err := ParseRoot(sc, thrift.NewDefaultOptions())
+		desc, svc, err := ParseRoot(sc, thrift.NewDefaultOptions())
 		if err != nil {
 			cs.Viol("hm:parse-idl", "err", err)
 			return
@@ -547,11 +548,24 @@ func runC17(c *h.Ctx) {
 			ps = append(ps, dhttp.Param{Key: k, Value: v})
 		}
 		sort.Slice(ps, func(i, j int) bool { return ps[i].Key < ps[j].Key })
-		req, err := dhttp.NewHTTPRequestFromStdReq(sr, ps...)
-		if err != nil {
-			cs.Viol("hm:request-build", "err", err)
-			return
+		// a request that was not built by NewHTTPRequestFromStdReq (NewHTTPRequestFromUrl, or a literal) parses its
+		// JSON body on the first body lookup; every later lookup reads the same members
+		lazy := bodyKind == "json" && cs.R.Chance(30)
+		var req *dhttp.HTTPRequest
+		if lazy {
+			req = &dhttp.HTTPRequest{Request: sr}
+			for _, p := range ps {
+				req.Params.Set(p.Key, p.Value)
+			}
+			cs.Cover("request_body_parsed_on_demand")
+		} else {
+			req, err = dhttp.NewHTTPRequestFromStdReq(sr, ps...)
+			if err != nil {
+				cs.Viol("hm:request-build", "err", err)
+				return
+			}
 		}
+		cs.Info("lazy-body", lazy)
 		cs.Info("request", fmt.Sprintf("url=%s headers=%v cookies=%v params=%v body(%s)=%s data=%s", u, rq.headers, rq.cookies, rq.params, bodyKind, trunc(string(rawBody)), trunc(string(data))))
 		cs.Info("opts", fmt.Sprintf("fallback=%v wr=%v wd=%v wo=%v nob64=%v traceback=%v", o.ReadHttpValueFallback, o.WriteRequireField, o.WriteDefaultField, o.WriteOptionalField, o.NoBase64Binary, o.TracebackRequredOrRootFields))
 		// a cookie value may be altered by the standard library (quotes, spaces): what it delivers is what counts
@@ -582,7 +596,29 @@ func runC17(c *h.Ctx) {
 		}
 		ctx := context.WithValue(context.Background(), conv.CtxKeyHTTPRequest, req)
 		cv := j2t.NewBinaryConv(o)
-		out, err := cv.Do(ctx, desc, data)
+		var out []byte
+		if fn, _ := svc.LookupFunctionByMethod("M"); fn != nil && bodyKind == "json" && cs.R.Chance(25) {
+			// the same conversion through the HTTP converter, which takes the JSON from the request itself
+			// and wraps the struct into a CALL message
+			hc := j2t.NewHTTPConv(meta.EncodingThriftBinary, fn)
+			var msg []byte
+			if cs.R.Bool() {
+				msg, err = hc.Do(context.Background(), req, o)
+			} else {
+				err = hc.DoInto(context.Background(), req, &msg, o)
+			}
+			if err == nil {
+				name, mt, _, id, body, uerr := thrift.UnwrapBinaryMessage(msg)
+				if uerr != nil || name != "M" || mt != thrift.CALL || id != 1 {
+					cs.Viol("hm:httpconv:envelope", "err", uerr, "name", name, "type", int(mt), "id", int(id))
+					return
+				}
+				out = body
+			}
+			cs.Cover("request_via_HTTPConv")
+		} else {
+			out, err = cv.Do(ctx, desc, data)
+		}
 		if unasserted {
 			cs.Cover("request_unasserted_cell")
 			if err == nil {
